@@ -184,6 +184,7 @@ def c07(tier):
     # the C readers leave the handle null or valid whatever happens to the read
     cw.cw4(P, C, only=("readsplinefitstable", "readsplinefitstable_mem"))
     C.extra["units"] = sorted(P.units.keys())
+    sm.vg5(P, C)
     return C.finish()
 
 
@@ -414,6 +415,8 @@ def c19(tier):
     sm.sm4(P, C)
     sm.sm6(P, C)
     sm.sm7(P, C)
+    # 'for any table file': a file that is no table, or a declaration that does not fit it, is refused, not indexed with
+    sm.vg5(P, C)
     # the model reads the per-dimension orders through readOrder: ORDERn must land in order[n] there as in the reader
     fs.fs8(P, C)
     n = sm.ts3a(P, C)
